@@ -191,6 +191,7 @@ def run(facts, tier):
     # "selects, orders and de-duplicates exactly as on a fresh parse": queries order by the order *key* (not by creation id)
     from props import c07
     c07.summary_rule(facts, res, "C14-9")
+    c07.fresh_key_rule(facts, res, "C14-10")      # keys are non-zero and pairwise distinct
     return res
 
 
